@@ -223,7 +223,7 @@ Definition rt_carry_all : M' unit :=
 (* try_grow.  true = Ok(()) *)
 Definition rt_try_grow (fallible : bool) (extra : N) : M' bool :=
   o <- getlo ;;
-  debug_check c (negb (is_some_b o)) 461 ;;;
+  debug_check (negb (is_some_b o)) 461 ;;;
   t <- getm ;;
   let need := hlen t in
   let inserts := cdiv need R in
@@ -394,7 +394,7 @@ Definition hb_clone_from_with_hasher (t s : hb) : M' hb :=
     let els := (map_to_list (hel s)).*2 in
     (* clone, then hash each element; on a panic the destination is cleared again *)
     iterM (fun e => cb ;;; on_unwind cb (drop_key (ekid e)) ;;; on_unwind tick_hash (drop_elem e)) els ;;;
-    (if hgl t1 <? hlen s then if cdebug c then unwind (PDebugAssert 3647) else fault_ FGlUnderflow
+    (if hgl t1 <? hlen s then unwind (PDebugAssert 3647)
      else ret (HB (hB t1) (hgl t1 - hlen s) (hn s) (hel s)))
   else
     if hB s =? 1 then
